@@ -17,8 +17,8 @@ The numeric conversions (`Str2Type<T>` = dmlc::strtof / ParseUnsignedInt, libc `
 cell conversion dmlc::strtof / libc strtoll) are the parameter `conv`; values are bit patterns
 (`Nat`): binary32 for `real_t`, two's complement for the integer cell types.
 
-`Fixes` says which of the repairs of findings C11-F1..F5 the source carries (read off the source by
-`Gen.Parse.fix*`), so the same model follows the pinned and the repaired code.
+`Fixes` says which of the repairs of findings C11-F1..F5 and C12-F3 the source carries (read off the source
+by `Gen.Parse.fix*`), so the same model follows the pinned and the repaired code.
 -/
 import DmlcModel.Basic
 import DmlcModel.Gen.Parse
@@ -41,13 +41,15 @@ structure Fixes where
   svmEolSkip : Bool
   csvBlankGuard : Bool
   csvBomGuard : Bool
+  /-- C12-F3 (fixes/C12-3.diff): the blank-cell guard also stops at the delimiter -/
+  csvDelimGuard : Bool
   deriving DecidableEq, Repr
 
 def Fixes.current : Fixes :=
   ⟨Gen.Parse.fixPairGuard, Gen.Parse.fixTripleGuard, Gen.Parse.fixQidGuard, Gen.Parse.fixSvmEolSkip,
-   Gen.Parse.fixCsvBlankGuard, Gen.Parse.fixCsvBomGuard⟩
-def Fixes.pinned : Fixes := ⟨false, false, false, false, false, false⟩
-def Fixes.repaired : Fixes := ⟨true, true, true, true, true, true⟩
+   Gen.Parse.fixCsvBlankGuard, Gen.Parse.fixCsvBomGuard, Gen.Parse.fixCsvDelimGuard⟩
+def Fixes.pinned : Fixes := ⟨false, false, false, false, false, false, false⟩
+def Fixes.repaired : Fixes := ⟨true, true, true, true, true, true, true⟩
 
 /-- the numeric conversions, started at a position of `mem` -/
 structure Conv where
@@ -385,9 +387,24 @@ structure CsvLine where
   idx : Nat := 0
   deriving Repr, DecidableEq
 
-/-- the conversion of one cell (with the blank-cell guard of the repaired source): value and `endptr` -/
-def csvCellConv (fx : Fixes) (conv : Conv) (mem : Bytes) (lend p : Nat) : Res (Nat × Nat) := do
-  let blank ← if fx.csvBlankGuard then (do let q ← scan isCellSpaceB mem lend p; pure (q == lend)) else pure false
+/-- the skip loop of the blank-cell guard with `csvDelimGuard` (fixes/C12-3.diff):
+`*cell != param_.delimiter[0] && (isspace(*cell) || *cell == '\v')` -/
+def isCellSpaceNotDelimB (delim : Nat) (b : UInt8) : Bool := Gen.Parse.csvNotDelim b.toNat delim && isCellSpaceB b
+
+/-- the conversion of one cell (with the blank-cell guard of the repaired source): value and `endptr`.
+`csvBlankGuard` alone: `while (cell != lend && cellspace(*cell)) ++cell; if (cell == lend) missing`;
+with `csvDelimGuard`: `while (cell != lend && *cell != delim && cellspace(*cell)) ++cell;
+if (cell == lend || *cell == delim) missing` (`delim` = `param_.delimiter[0]`) -/
+def csvCellConv (fx : Fixes) (conv : Conv) (delim : Nat) (mem : Bytes) (lend p : Nat) : Res (Nat × Nat) := do
+  let blank ←
+    if fx.csvBlankGuard then
+      (if fx.csvDelimGuard then do
+        let q ← scan (isCellSpaceNotDelimB delim) mem lend p
+        if q = lend then pure true else do
+          let b ← byteAt mem q
+          pure (!Gen.Parse.csvNotDelim b.toNat delim)
+      else do let q ← scan isCellSpaceB mem lend p; pure (q == lend))
+    else pure false
   if blank then pure (0, p) else conv.cell mem p
 
 /-- routing of one cell value: label column, weight column, or entry (`present` = the conversion consumed
@@ -405,7 +422,7 @@ def csvCells (fx : Fixes) (conv : Conv) (prm : CsvParam) (mem : Bytes) (lend : N
   | 0, _, _ => .error .oob
   | fuel + 1, p, st =>
     if p = lend then .ok st else do
-    let ve ← csvCellConv fx conv mem lend p
+    let ve ← csvCellConv fx conv prm.delim mem lend p
     let st := csvUpdate prm st ve.1 (Gen.Parse.csvCellPresent p ve.2)
     let q ← scanRd (fun b => Gen.Parse.csvNotDelim b.toNat prm.delim) mem lend (Gen.Parse.csvClamp ve.2 lend)
     if Gen.Parse.csvNoDelimiter q lend st.idx then .error .check else
